@@ -128,7 +128,7 @@ def run(rep, tier, seed):
         cases.append({"k": f"depth-{j}", "b64": vlib.b64(data), "cfg": {}, "what": f"depth:{c['construct']}", "n": c["n"],
                       "allowed": c["allowed"],
                       # retry-nested either returns at once or (listed finding) never: a short watchdog suffices
-                      "timeout_ms": (8000 if not big else 30000) if c["construct"] in ("retry-nested", "retry-nested-ws", "retry-siblings") else (120000 if c["n"] >= 5000 else 30000), "trace": c["n"] <= 100, "trace_cap": 20000})
+                      "timeout_ms": (8000 if not big else 30000) if c["construct"] in ("retry-nested", "retry-nested-ws", "retry-siblings", "retry-nested-tail") else (120000 if c["n"] >= 5000 else 30000), "trace": c["n"] <= 100, "trace_cap": 20000})
     lex = rx.replay
     if not big and len(lex) > 6000:
         lex = rnd.sample(lex, 6000)
